@@ -47,8 +47,8 @@ type Response struct {
 	// type.
 	_ struct{} `kafka:"min=v4,max=v4,tag"`
 
-	ErrorCode      int16            `kafka:"min=v0,max=v4"`
 	ThrottleTimeMS int32            `kafka:"min=v1,max=v4"`
+	ErrorCode      int16            `kafka:"min=v0,max=v4"`
 	Members        []ResponseMember `kafka:"min=v3,max=v4"`
 }
 
